@@ -568,7 +568,9 @@ def strategies():
     @st.composite
     def sim_desc(draw, tbname, tbkind):
         attrs = draw(st.lists(attr, min_size=0, max_size=8))
-        keys = ["k%d_%s" % (i, a["t"]) for i, a in enumerate(attrs)]
+        # class-body keys become the names; a key may carry leading underscores (only the bare "_" is special)
+        lead = draw(st.lists(st.sampled_from(["", "", "", "_", "__"]), min_size=len(attrs), max_size=len(attrs)))
+        keys = ["%sk%d_%s" % (u, i, a["t"]) for i, (a, u) in enumerate(zip(attrs, lead))]
         d_ = {"tb": {"name": tbname, "kind": tbkind}, "attrs": attrs, "keys": keys}
         if len(attrs) >= 2 and draw(st.integers(0, 3)) == 0:
             d_["grow"] = draw(st.integers(1, len(attrs) - 1))  # add-method style: exported once before the last `grow` attributes are added
